@@ -169,6 +169,15 @@ func BuildSeed(sc *Scope) (*seedState, error) {
 	return s, nil
 }
 
+// BuildSeedData returns the bytes of the scope's seed file.
+func BuildSeedData(sc *Scope) ([]byte, error) {
+	s, err := BuildSeed(sc)
+	if err != nil {
+		return nil, err
+	}
+	return s.data, nil
+}
+
 var curPath string
 
 // Fresh opens a fresh copy of the scope's seed.
